@@ -44,15 +44,15 @@ def namespace():
     for k in ("Sequence", "Iterable", "Mapping", "Collection", "MutableSequence", "MutableMapping"):
         ns[k] = getattr(collections.abc, k)
     ns["AbstractSet"] = collections.abc.Set
-    for k in ("A", "B", "C", "E", "IE", "NT", "TD1", "TD2", "TD3", "TD4", "Falsy"):
+    for k in ("A", "B", "C", "E", "IE", "NT", "TD1", "TD2", "TD3", "TD4", "Falsy", "ISub", "FSub", "CSub", "FE", "SSub", "BSub", "TSub", "LSub", "DSub", "SE"):
         ns[k] = getattr(U, k)
     return ns
 
 
 BASES = ["int", "bool", "float", "complex", "str", "bytes", "object", "A", "B", "C", "E", "IE", "list", "tuple", "dict",
-         "set", "frozenset", "type", "None", "NT", "TD1", "TD2", "TD3", "TD4"]
+         "set", "frozenset", "type", "None", "NT", "TD1", "TD2", "TD3", "TD4", "ISub", "FSub", "FE", "SSub", "TSub", "LSub", "DSub"]
 LITS = ["1", "0", "True", "False", "'a'", "''", "b'a'", "None", "-1", "E.a", "IE.x", "2"]
-CLASSES_FOR_TYPE = ["int", "float", "bool", "str", "A", "B", "C", "object", "complex"]
+CLASSES_FOR_TYPE = ["int", "float", "bool", "str", "A", "B", "C", "object", "complex", "tuple", "list", "dict", "bytes"]
 
 
 def gen_type(rng, depth):
@@ -226,7 +226,7 @@ def gen_obj_for(rng, T, depth=2):
         rng.shuffle(kvs)
         return ["dict", rng.randrange(4), kvs]
     if origin is type:
-        return ["class", rng.choice(["int", "bool", "float", "str", "A", "B", "C", "object"])]
+        return ["class", rng.choice(["int", "bool", "float", "str", "A", "B", "C", "object", "ISub", "FSub", "CSub", "SSub", "BSub", "TSub", "LSub", "DSub", "complex"])]
     lab = rng.randrange(4)
     if origin is tuple:
         if len(args) == 2 and args[1] is Ellipsis:
@@ -259,8 +259,10 @@ def gen_obj_for(rng, T, depth=2):
             return ["frozenset", els] if kind == "frozenset" else ["set", lab, els]
         return [kind, lab if kind == "list" else 100 + rng.randrange(900), [gen_obj_for(rng, args[0], depth - 1) for _ in range(n)]]
     if isinstance(T, type):
-        pool = {int: [["int", 1], ["int", 0], ["bool", True], ["ie", "x"]], bool: [["bool", True], ["int", 1]],
-                float: [["float", 1.5], ["int", 1], ["bool", False], ["float", 1.0]], complex: [["complex", 0.0, 1.0], ["float", 1.5], ["int", 2]],
+        pool = {int: [["int", 1], ["int", 0], ["bool", True], ["ie", "x"], ["isub", 3]], bool: [["bool", True], ["int", 1]],
+                float: [["float", 1.5], ["int", 1], ["bool", False], ["float", 1.0], ["fsub", 0.5], ["fe", "half"], ["isub", 3]],
+                complex: [["complex", 0.0, 1.0], ["float", 1.5], ["int", 2], ["fsub", 0.5], ["fe", "one"], ["isub", 3], ["ie", "x"]],
+                U.ISub: [["isub", 3], ["int", 3]], U.FSub: [["fsub", 0.5], ["float", 0.5]], U.FE: [["fe", "half"], ["float", 0.5]],
                 str: [["str", "a"], ["str", ""], ["bytes", "a"]], bytes: [["bytes", "a"], ["str", "a"]],
                 U.A: [["inst", "A", 0], ["inst", "B", 0], ["inst", "C", 0]], U.B: [["inst", "B", 0], ["inst", "A", 0]],
                 U.C: [["inst", "C", 0], ["inst", "A", 1]], U.E: [["e", "a"], ["ie", "x"], ["int", 1]], U.IE: [["ie", "x"], ["int", 1], ["e", "a"]],
@@ -357,7 +359,7 @@ def run_programs(progs):
     import io
 
     lines = ["from typing import *", "from collections.abc import Sequence, Iterable, Mapping, Collection, MutableSequence, MutableMapping",
-             "from collections.abc import Set as AbstractSet", "from universe import A, B, C, E, IE, NT, TD1, TD2, TD3, TD4, Falsy", ""]
+             "from collections.abc import Set as AbstractSet", "from universe import A, B, C, E, IE, NT, TD1, TD2, TD3, TD4, Falsy, ISub, FSub, CSub, FE, SSub, BSub, TSub, LSub, DSub, SE", ""]
     where = {}
     for i, (t, src) in enumerate(progs):
         lines.append(f"def f{i}():")
@@ -449,6 +451,12 @@ def run(tier: str, replay: str | None = None):
 
     # model
     model_ok = proof is not None and not any("build failed" in b or "forbidden" in b for b in proof.broken)
+    if not model_ok and gen is not None:
+        # a proof (e.g. a table obligation) no longer checks: the model itself may still build, so that the
+        # correspondence and the oracles keep their reference and can produce a failing input
+        for name, text in gen.items():
+            lib.write_if_changed(lib.GEN / name, text)
+        model_ok = lib.coq_make(["theories/Core/C03Run.vo", "theories/Gen/ClassTable.vo"])[0]
     if model_ok:
         try:
             results = lib.coq_eval(HEADER, [r["term"] for r in rows], name="c03", shard=400, jobs=6)
@@ -483,7 +491,7 @@ def run(tier: str, replay: str | None = None):
             attributed = False
             # inside the theorem's guard nothing is attributable: model = spec there
             if "model" in r and not r["okb"] and r["model"] == r["impl"] and (not bad_e2e or r["e2e"] == (not r["impl"])):
-                for clause in ("variadic_member", "literal_dedup", "typeddict_nonstr_key", "str_bytes_by_type"):
+                for clause in ("variadic_member", "typeddict_nonstr_key", "str_bytes_by_type"):
                     fid = f"C03-{clause.replace('_', '-')}"
                     if r["clauses"][clause] and fid in findings:
                         rep.known(fid, findings[fid]["what"])
